@@ -234,14 +234,23 @@ def s3(ctx, rep):
             val = d["ignore_data"]
     if val is None:
         raise AnchorError("PromotionRungSystem.on_task_report returns no dict with key 'ignore_data'")
-    if isinstance(val, ast.Name):
-        defs = local_defs(g, val.id)
-        if len(defs) != 1:
-            raise AnchorError("PromotionRungSystem.on_task_report: ignore_data has several definitions")
-        val = defs[0]
-    # required: (resume_from is not None) and (resource <= resume_from)
+    # the conditions under which the flag is true: the conjunction in its one definition, or - written as statements - the
+    # conditions dominating its one definition that is not the constant False, together with that definition's own
     from ..core.facts import atoms_of
-    at = atoms_of(val, True)
+    from .common import dom_guard
+    from ..engine import canon_text
+    at = None
+    if isinstance(val, ast.Name):
+        cg_ = cfg_of(g)
+        dn = [n for n in cg_.nodes if n.kind == "stmt" and isinstance(n.ast, ast.Assign) and any(isinstance(t_, ast.Name) and t_.id == val.id for t_ in n.ast.targets)]
+        live = [n for n in dn if not (isinstance(n.ast.value, ast.Constant) and n.ast.value.value is False)]
+        if len(live) != 1:
+            raise AnchorError(f"PromotionRungSystem.on_task_report: ignore_data has {len(live)} definitions that are not the constant False")
+        at = set(atoms_of(live[0].ast.value, True)) | set(dom_guard(ctx, g, live[0].id))
+        val = live[0].ast.value
+    else:
+        at = set(atoms_of(val, True))
+    # required: (resume_from is not None) and (resource <= resume_from)
     has_nn = any(a[0] == "is" and a[2] == "None" and a[3] is False for a in at)
     le = [a for a in at if a[0] == "le"]
     ok = has_nn and len(le) == 1 and len(at) == 2
@@ -249,10 +258,17 @@ def s3(ctx, rep):
         rf = [a for a in at if a[0] == "is"][0][1]
         ok = le[0][2] == rf
         # resume_from must be read from the running record; resource from result[resource_attr]
-        rdefs = local_defs(g, le[0][1])
-        ok = ok and len(rdefs) == 1 and "_resource_attr" in U(rdefs[0])
-        fdefs = local_defs(g, rf)
-        ok = ok and len(fdefs) == 1 and "resume_from" in U(fdefs[0]) and "_running" in U(fdefs[0])
+        def _src(name):
+            from .common import unpacked_field
+            uf = unpacked_field(ctx, g, name) if name.isidentifier() else None
+            if uf is not None:
+                return f"{canon_text(g, uf[0])}.{uf[1]}"
+            try:
+                return canon_text(g, ast.parse(name, mode="eval").body)
+            except SyntaxError:
+                return name
+        ok = ok and "_resource_attr" in _src(le[0][1])
+        ok = ok and "resume_from" in _src(rf) and "_running" in _src(rf)
     rep.put(ok, "S3", "agreement", "PromotionRungSystem.on_task_report: ignore_data definition", g, val,
             f"ignore_data = `{U(val)}` (level at or below the level the trial was resumed from)",
             f"ignore_data = `{U(val)}` is not `(resume_from is not None) and (resource <= resume_from)`")
